@@ -251,6 +251,7 @@ type TBResult struct {
 	TopOuts json.RawMessage
 	Tree    map[string]TreeEntry
 	Final   string // complete failed timeout
+	Stuck   string // diagnosis of a timeout: unfinished job objects
 }
 
 func (e *TBEnv) Run(spec *TBSpec, rng *rand.Rand) *TBResult {
@@ -382,6 +383,45 @@ func (e *TBEnv) Run(spec *TBSpec, rng *rand.Rand) *TBResult {
 		res.TopOuts = compactJSON(b)
 	}
 	res.Tree = dirTree(res.PsDir)
+	if res.Final == "timeout" {
+		// diagnosis: job objects without a _complete marker, with what they contain
+		var sb strings.Builder
+		byDir := map[string][]string{}
+		for p := range res.Tree {
+			d, b := filepath.Split(p)
+			if strings.HasPrefix(b, "_") {
+				byDir[d] = append(byDir[d], b)
+			}
+		}
+		var dirs []string
+		for d := range byDir {
+			dirs = append(dirs, d)
+		}
+		sort.Strings(dirs)
+		for _, d := range dirs {
+			fs := byDir[d]
+			sort.Strings(fs)
+			done := false
+			for _, f := range fs {
+				if f == "_complete" || f == "_disabled" {
+					done = true
+				}
+			}
+			if !done && strings.Contains(d, "fork") {
+				fmt.Fprintf(&sb, "%s: %v\n", d, fs)
+				if b, err := os.ReadFile(filepath.Join(res.PsDir, d, "_jobinfo")); err == nil && len(b) < 3000 {
+					var ji map[string]interface{}
+					if json.Unmarshal(b, &ji) == nil {
+						fmt.Fprintf(&sb, "   pid=%v type=%v\n", ji["pid"], ji["type"])
+					}
+				}
+				if b, err := os.ReadFile(filepath.Join(res.PsDir, d, "_errors")); err == nil {
+					fmt.Fprintf(&sb, "   _errors: %.200s\n", string(b))
+				}
+			}
+		}
+		res.Stuck = sb.String()
+	}
 	return res
 }
 
